@@ -69,6 +69,72 @@ Example C17_nonvacuous :
   auto_search 40 2 (Some 60) 10 6 3 [1; 1] [false; true] = (Found 10, [7; 10], 5).
 Proof. split; vm_compute; reflexivity. Qed.
 
+(* ------------------------------------------------------------------------
+   NON-VACUITY (audit): the theorems APPLIED to the two calls of C17_nonvacuous (a call interrupted by
+   its time limit after 6 packets, and the resumed call that starts at packet count 6 with clock offset 3
+   and finds the specification after 10), and to a call that exhausts the queue (9 packets, four
+   has_specification() calls, all answering False). *)
+Require Import Lia.
+Lemma ds_nonneg_1 : Forall (fun d => 0 <= d) [2; 1; 3]. Proof. repeat constructor; lia. Qed.
+Lemma ds_nonneg_2 : Forall (fun d => 0 <= d) [1; 1]. Proof. repeat constructor; lia. Qed.
+Lemma ds_nonneg_3 : Forall (fun d => 0 <= d) [1; 2; 1; 1]. Proof. repeat constructor; lia. Qed.
+Lemma run_interrupted : auto_search 40 2 (Some 6) 10 0 0 [2; 1; 3] [false; false; false] = (Exceeded 6, [1; 6], 3).
+Proof. vm_compute; reflexivity. Qed.
+Lemma run_resumed : auto_search 40 2 (Some 60) 10 6 3 [1; 1] [false; true] = (Found 10, [7; 10], 5).
+Proof. vm_compute; reflexivity. Qed.
+Lemma run_exhausted :
+  auto_search 9 2 None 10 0 0 [1; 2; 1; 1] [false; false; false; false; false] = (NotFound 9, [1; 4; 9; 9], 5).
+Proof. vm_compute; reflexivity. Qed.
+
+(* covers C17_resume_from, the three informative outcomes (the OutOfFuel case of the theorem says nothing) *)
+Example C17_resume_from_nonvacuous :
+  ((forall x, In x [1; 6] -> 0 <= x <= 40) /\
+   last [1; 6] 0 = 6 /\ forall j, (j < length [1; 6])%nat -> nth j [false; false; false] false = false) /\
+  ((forall x, In x [7; 10] -> 6 <= x <= 40) /\
+   last [7; 10] 6 = 10 /\ nth (length [7; 10] - 1) [false; true] false = true /\
+   forall j, (j < length [7; 10] - 1)%nat -> nth j [false; true] false = false) /\
+  ((forall x, In x [1; 4; 9; 9] -> 0 <= x <= 9) /\
+   last [1; 4; 9; 9] 0 = 9 /\
+   forall j, (j < length [1; 4; 9; 9])%nat -> nth j [false; false; false; false; false] false = false).
+Proof.
+  split; [|split].
+  - apply (C17_resume_from 40 2 (Some 6) 10 0 0 [2; 1; 3] [false; false; false] (Exceeded 6) [1; 6] 3
+             ltac:(lia) ltac:(lia) ds_nonneg_1 run_interrupted).
+  - apply (C17_resume_from 40 2 (Some 60) 10 6 3 [1; 1] [false; true] (Found 10) [7; 10] 5
+             ltac:(lia) ltac:(lia) ds_nonneg_2 run_resumed).
+  - apply (C17_resume_from 9 2 None 10 0 0 [1; 2; 1; 1] [false; false; false; false; false] (NotFound 9)
+             [1; 4; 9; 9] 5 ltac:(lia) ltac:(lia) ds_nonneg_3 run_exhausted).
+Qed.
+(* with too little fuel the model answers OutOfFuel and C17_resume_from's conclusion is `True`: the
+   theorem is informative only for runs that end (there is no theorem that enough fuel exists) *)
+Example C17_resume_from_out_of_fuel :
+  auto_search 9 2 None 2 0 0 [1; 2; 1; 1] [false; false; false; false; false] = (OutOfFuel, [1; 4], 3).
+Proof. vm_compute; reflexivity. Qed.
+
+Example C17_notfound_only_when_exhausted_nonvacuous : 9 = 9.
+Proof.
+  apply (C17_notfound_only_when_exhausted 9 2 None 10 0 0 [1; 2; 1; 1] [false; false; false; false; false] 9
+           [1; 4; 9; 9] 5 ltac:(lia) ltac:(lia) ds_nonneg_3 run_exhausted).
+Qed.
+(* the conclusion is about the queue: with a larger queue the same script is NOT answered NotFound *)
+Example C17_notfound_near_miss :
+  fst (fst (auto_search 40 2 None 4 0 0 [1; 2; 1; 1] [false; false; false; false; false])) = OutOfFuel /\
+  fst (fst (auto_search 9 2 None 10 3 1 [1; 2; 1; 1] [false; false; false; false; false])) = NotFound 9.
+Proof. split; vm_compute; reflexivity. Qed.
+
+Example C17_exceeded_only_past_limit_nonvacuous :
+  exists m, Some 6 = Some m /\ m < 6 + 3 - (0 + 0).
+Proof.
+  apply (C17_exceeded_only_past_limit 40 2 (Some 6) 10 0 0 [2; 1; 3] [false; false; false] 6 [1; 6] 3
+           run_interrupted).
+Qed.
+(* ... and with a limit that is not passed (or none) the same script is not interrupted *)
+Example C17_exceeded_near_miss :
+  fst (fst (auto_search 40 2 (Some 20) 3 0 0 [2; 1; 3] [false; false; false])) = OutOfFuel /\
+  fst (fst (auto_search 40 2 None 3 0 0 [2; 1; 3] [false; false; false])) = OutOfFuel /\
+  auto_search 40 2 (Some 9) 3 0 0 [2; 1; 3] [false; false; false] = (Exceeded 9, [1; 6; 9], 6).
+Proof. split; [|split]; vm_compute; reflexivity. Qed.
+
 Print Assumptions C17_resume_from.
 Print Assumptions C17_notfound_only_when_exhausted.
 Print Assumptions C17_exceeded_only_past_limit.
